@@ -268,6 +268,11 @@ func fileOf(p *packages.Package, pos token.Pos) *ast.File {
 // satisfying target is executed (a `defer` of a matching call counts, since it runs at exit).
 // Paths that end in a panic are ignored unless panics is true.
 func mustReach(from ssa.Instruction, target func(ssa.Instruction) bool, panics bool) (bool, ssa.Instruction) {
+	return mustReachAt(from.Block(), instrIndex(from)+1, target, panics)
+}
+
+// mustReachAt: mustReach from position start of block b0.
+func mustReachAt(b0 *ssa.BasicBlock, start0 int, target func(ssa.Instruction) bool, panics bool) (bool, ssa.Instruction) {
 	seen := map[*ssa.BasicBlock]bool{}
 	var bad ssa.Instruction
 	var walk func(b *ssa.BasicBlock, start int) bool
@@ -293,12 +298,39 @@ func mustReach(from ssa.Instruction, target func(ssa.Instruction) bool, panics b
 			}
 			switch in.(type) {
 			case *ssa.Return:
-				// the return of a new helper continues after each of its call sites
+				// the return of a new helper continues after each of its call sites; the constants it returns there
+				// are known to the caller's tests of them (reachEnv)
 				if g := b.Parent(); flattenable[g] && len(helperSites[g]) > 0 {
 					all := true
+					ret := in.(*ssa.Return)
 					for _, site := range helperSites[g] {
+						saved := reachEnv
+						env := map[ssa.Value]ssa.Value{}
+						for k, v := range saved {
+							env[k] = v
+						}
+						if len(ret.Results) == 1 {
+							if c, isC := envValue(ret.Results[0]).(*ssa.Const); isC {
+								env[site] = c
+							}
+						} else if refs := site.Referrers(); refs != nil {
+							for _, ref := range *refs {
+								if ex, isEx := ref.(*ssa.Extract); isEx && ex.Index < len(ret.Results) {
+									if c, isC := envValue(ret.Results[ex.Index]).(*ssa.Const); isC {
+										env[ex] = c
+									}
+								}
+							}
+						}
+						reachEnv = env
 						sb := site.Block()
-						if !walk(sb, instrIndex(site)+1) {
+						// the caller's blocks are walked again for every returned constant combination
+						savedSeen := seen
+						seen = map[*ssa.BasicBlock]bool{}
+						okSite := walk(sb, instrIndex(site)+1)
+						seen = savedSeen
+						reachEnv = saved
+						if !okSite {
 							all = false
 						}
 					}
@@ -316,7 +348,27 @@ func mustReach(from ssa.Instruction, target func(ssa.Instruction) bool, panics b
 				return true
 			}
 		}
-		for _, s := range b.Succs {
+		succs := b.Succs
+		if len(b.Instrs) > 0 && len(reachEnv) > 0 {
+			if ifi, isIf := b.Instrs[len(b.Instrs)-1].(*ssa.If); isIf && len(b.Succs) == 2 {
+				cond, neg := ifi.Cond, false
+				for {
+					if un, isUn := cond.(*ssa.UnOp); isUn && un.Op == token.NOT {
+						cond, neg = un.X, !neg
+						continue
+					}
+					break
+				}
+				if c, isC := envValue(cond).(*ssa.Const); isC && c.Value != nil && c.Value.Kind() == constant.Bool {
+					if constant.BoolVal(c.Value) != neg {
+						succs = b.Succs[:1]
+					} else {
+						succs = b.Succs[1:]
+					}
+				}
+			}
+		}
+		for _, s := range succs {
 			if seen[s] {
 				continue
 			}
@@ -327,8 +379,23 @@ func mustReach(from ssa.Instruction, target func(ssa.Instruction) bool, panics b
 		}
 		return true
 	}
-	ok := walk(from.Block(), instrIndex(from)+1)
+	savedEnv := reachEnv
+	defer func() { reachEnv = savedEnv }()
+	ok := walk(b0, start0)
 	return ok, bad
+}
+
+// reachEnv: while mustReach walks a caller after the return of a new helper, the constants that return yielded
+// (per result) are bound to the call's results here; envValue reads a value through it.
+var reachEnv map[ssa.Value]ssa.Value
+
+func envValue(v ssa.Value) ssa.Value {
+	if reachEnv != nil {
+		if c, ok := reachEnv[v]; ok {
+			return c
+		}
+	}
+	return v
 }
 
 // reachableFrom: is there a CFG path from instruction a to instruction b (a before b)?
